@@ -1,8 +1,15 @@
-//! C14: untrusted bytes never crash verification (fuzz streams + targeted hostile inputs).
+//! C14: untrusted bytes never crash verification — fuzz streams into every parser / importer and
+//! hostile link directories (supporting evidence for library code), plus the probes of the repo's
+//! own panic sites.
+use crate::e2e;
+use crate::jsongen::{gen_value, spell};
+use crate::meta::{gen_layout, gen_link, key_pool, keys_dir, KeyInfo};
 use crate::proto::{guarded, hex, Sink};
 use crate::rng::Rng;
 use crate::Cfg;
-use in_toto::crypto::Signature;
+use in_toto::crypto::{PrivateKey, PublicKey, Signature, SignatureScheme};
+use in_toto::models::{LayoutMetadata, LinkMetadata, Metablock, MetadataWrapper, PredicateWrapper, StatementWrapper};
+use in_toto::verif_hooks as hooks;
 
 /// `KeyId::prefix` on key ids accepted by the parser (any 64-byte string)
 pub fn prefix_case(sink: &mut Sink, kid: &str) {
@@ -19,9 +26,148 @@ pub fn prefix_case(sink: &mut Sink, kid: &str) {
     sink.oracle(ans != "panic", "KeyId::prefix panicked on a key id the parser accepts", &format!("prefix8 {}", hex(kid.as_bytes())));
 }
 
+fn mutate(r: &mut Rng, b: &[u8]) -> Vec<u8> {
+    let mut m = b.to_vec();
+    for _ in 0..1 + r.below(3) {
+        if m.is_empty() {
+            m.push(r.next() as u8);
+            continue;
+        }
+        match r.below(6) {
+            0 => {
+                let i = r.below(m.len());
+                m[i] = r.next() as u8;
+            }
+            1 => {
+                let i = r.below(m.len());
+                m[i] ^= 1 << r.below(8);
+            }
+            2 => {
+                let n = r.below(m.len() + 1);
+                m.truncate(n);
+            }
+            3 => {
+                let i = r.below(m.len() + 1);
+                m.insert(i, *r.pick(&[b'"', b'\\', b'{', b'}', b'[', b']', b',', b':', 0, 0xff, b'9', b'e', b'-']));
+            }
+            4 => {
+                let i = r.below(m.len());
+                let j = (i + 1 + r.below(8)).min(m.len());
+                m.drain(i..j);
+            }
+            _ => {
+                let i = r.below(m.len());
+                let j = (i + 1 + r.below(16)).min(m.len());
+                let chunk: Vec<u8> = m[i..j].to_vec();
+                let at = r.below(m.len());
+                for (k, c) in chunk.into_iter().enumerate() {
+                    m.insert(at + k, c);
+                }
+            }
+        }
+    }
+    m
+}
+
+/// run one entry point on one input; record only crashes (the model has nothing to say about library parsers)
+fn feed(sink: &mut Sink, what: &str, input: &[u8], f: impl FnOnce(&[u8]) -> bool + std::panic::UnwindSafe) {
+    let inp = input.to_vec();
+    let res = guarded(move || f(&inp));
+    sink.stat(&format!("fuzz/{}/{}", what, match res { Err(()) => "PANIC", Ok(true) => "accepted", Ok(false) => "rejected" }));
+    sink.oracle(res.is_ok(), &format!("{} panicked on untrusted input", what), &format!("{} {}", what, hex(input)));
+}
+
+fn feed_all_parsers(sink: &mut Sink, input: &[u8]) {
+    feed(sink, "Metablock::from_slice", input, |b| serde_json::from_slice::<Metablock>(b).is_ok());
+    feed(sink, "MetadataWrapper::try_from_bytes", input, |b| MetadataWrapper::try_from_bytes(b).is_ok());
+    feed(sink, "LayoutMetadata::from_slice", input, |b| serde_json::from_slice::<LayoutMetadata>(b).is_ok());
+    feed(sink, "LinkMetadata::from_slice", input, |b| serde_json::from_slice::<LinkMetadata>(b).is_ok());
+    feed(sink, "PublicKey::from_slice", input, |b| serde_json::from_slice::<PublicKey>(b).is_ok());
+    feed(sink, "StatementWrapper::from_slice", input, |b| serde_json::from_slice::<StatementWrapper>(b).is_ok());
+    feed(sink, "PredicateWrapper::from_slice", input, |b| serde_json::from_slice::<PredicateWrapper>(b).is_ok());
+    feed(sink, "pae_unpack", input, |b| hooks::pae_unpack(b).is_ok());
+}
+
+fn feed_key_importers(sink: &mut Sink, input: &[u8]) {
+    for scheme in [SignatureScheme::Ed25519, SignatureScheme::EcdsaP256Sha256, SignatureScheme::RsaSsaPssSha256] {
+        let s1 = scheme.clone();
+        feed(sink, "PublicKey::from_spki", input, move |b| PublicKey::from_spki(b, s1).is_ok());
+        let s2 = scheme.clone();
+        feed(sink, "PrivateKey::from_pkcs8", input, move |b| PrivateKey::from_pkcs8(b, s2).is_ok());
+        let s3 = scheme.clone();
+        feed(sink, "PublicKey::from_pem_spki", input, move |b| PublicKey::from_pem_spki(&String::from_utf8_lossy(b), s3).is_ok());
+    }
+    feed(sink, "PublicKey::from_ed25519", input, |b| PublicKey::from_ed25519(b.to_vec()).is_ok());
+    feed(sink, "PrivateKey::from_ed25519", input, |b| PrivateKey::from_ed25519(b).is_ok());
+    feed(sink, "PublicKey::from_ecdsa", input, |b| PublicKey::from_ecdsa(b.to_vec()).is_ok());
+}
+
+/// a verification run over a link directory seeded with hostile files
+fn hostile_dir_case(sink: &mut Sink, r: &mut Rng, pool: &[KeyInfo]) {
+    let mut g = e2e::Gen { r, pool, insp_counter: 0, force_delegate: false };
+    let mut s = g.valid(1, false);
+    // hostile files next to (or instead of) the real evidence
+    let step_names: Vec<String> = match &s.block.meta {
+        e2e::SMeta::Layout(l) => l.steps.iter().map(|x| x.name.clone()).collect(),
+        _ => vec![],
+    };
+    let tmp = tempfile::Builder::new().prefix("itv-hostile-").tempdir().unwrap();
+    let links = tmp.path().join("links");
+    e2e::write_dir(pool, &s.dir, &links);
+    let r = g.r;
+    for st in &step_names {
+        for _ in 0..1 + r.below(3) {
+            let prefix: String = match r.below(5) {
+                0 => "????????".into(),
+                1 => "\u{e9}\u{e9}\u{e9}\u{e9}".into(), // 8 bytes, 4 chars
+                2 => "aaaaaaa\u{e9}".into(),
+                3 => "00000000".into(),
+                _ => (0..8).map(|_| *r.pick(&['a', '0', '.', '-', '\u{4e2d}'])).collect(),
+            };
+            let name = format!("{}.{}.link", st, prefix);
+            let kid_weird = format!("aaaaaaa\u{e9}{}", "b".repeat(55));
+            let body: Vec<u8> = match r.below(8) {
+                0 => vec![],
+                1 => b"{".to_vec(),
+                2 => vec![0xff, 0xfe, 0x00],
+                3 => format!("{{\"signatures\":[{{\"keyid\":\"{}\",\"sig\":\"00\"}}],\"signed\":{}}}", kid_weird, serde_json::to_string(&gen_link(r, Some(st))).unwrap()).into_bytes(),
+                4 => format!("{{\"signatures\":[],\"signed\":{}}}", serde_json::to_string(&gen_link(r, Some(st))).unwrap()).into_bytes(),
+                5 => "[".repeat(300).into_bytes(),
+                6 => format!("{{\"signatures\":[{{\"keyid\":\"{}\",\"sig\":\"zz\"}}],\"signed\":null}}", "\u{e9}".repeat(32)).into_bytes(),
+                _ => {
+                    let base = serde_json::to_vec(&Metablock::new(MetadataWrapper::Link(gen_link(r, Some(st))), &[&pool[0].key]).unwrap()).unwrap();
+                    mutate(r, &base)
+                }
+            };
+            if r.chance(1, 10) {
+                let _ = std::fs::create_dir_all(links.join(&name)); // a directory named like a link file
+            } else {
+                let _ = std::fs::write(links.join(&name), body);
+            }
+        }
+    }
+    s.faults.clear();
+    let text = e2e::block_text(pool, &s.block);
+    let mut keys = std::collections::HashMap::new();
+    for &k in &s.caller_keys {
+        keys.insert(pool[k].public().key_id().clone(), pool[k].public().clone());
+    }
+    hooks::set_now(Some(s.now));
+    let links_str = links.to_str().unwrap().to_string();
+    let res = guarded(std::panic::AssertUnwindSafe(|| {
+        let block: Metablock = serde_json::from_str(&text).unwrap();
+        in_toto::verifylib::in_toto_verify(&block, keys, &links_str, None).is_ok()
+    }));
+    hooks::set_now(None);
+    sink.stat(&format!("hostile-dir/{}", match res { Err(()) => "PANIC", Ok(true) => "ok", Ok(false) => "err" }));
+    sink.oracle(res.is_ok(), "in_toto_verify panicked on a link directory with hostile files", &format!("hostile-dir seed-derived; layout {}", hex(text.as_bytes())));
+}
+
 pub fn run(cfg: &Cfg) {
     let mut sink = Sink::new(&cfg.out);
     let mut r = Rng::new(cfg.seed);
+    let pool = key_pool(1);
+    // ---- the repo's own former panic sites
     let ascii = "0123456789abcdef".repeat(4);
     prefix_case(&mut sink, &ascii);
     prefix_case(&mut sink, &format!("aaaaaaa\u{e9}{}", "b".repeat(55)));
@@ -37,6 +183,66 @@ pub fn run(cfg: &Cfg) {
             }
         }
         prefix_case(&mut sink, &s);
+    }
+    feed_key_importers(&mut sink, b"garbage");
+    feed_key_importers(&mut sink, b"-----BEGIN PUBLIC KEY-----\nAAAA\n-----END PUBLIC KEY-----");
+    feed_key_importers(&mut sink, &[0x30, 0x00]);
+
+    // ---- seeds: valid documents of every kind
+    let mut seeds: Vec<Vec<u8>> = vec![];
+    for _ in 0..8 {
+        let layout = gen_layout(&mut r, &pool);
+        let link = gen_link(&mut r, None);
+        seeds.push(serde_json::to_vec(&layout).unwrap());
+        seeds.push(serde_json::to_vec(&link).unwrap());
+        let k = r.pick(&pool);
+        seeds.push(serde_json::to_vec(&Metablock::new(MetadataWrapper::Layout(layout), &[&k.key]).unwrap()).unwrap());
+        seeds.push(serde_json::to_vec(k.public()).unwrap());
+        seeds.push(serde_json::to_vec(&crate::attgen::gen_v01(&mut r).0).unwrap());
+        seeds.push(serde_json::to_vec(&crate::attgen::gen_naive(&mut r)).unwrap());
+        seeds.push(serde_json::to_vec(&crate::attgen::gen_predicate(&mut r).1).unwrap());
+        seeds.push(hooks::pae_pack(b"payload", "application/vnd.in-toto+json".into()));
+    }
+    let mut der_seeds: Vec<Vec<u8>> = vec![];
+    for f in ["ec.pk8.der", "ed25519-1.pk8.der", "rsa-2048.pk8.der", "rsa-2048.spki.der", "ec.spki.der", "ed25519-1.spki.der", "ed25519-1.pub"] {
+        der_seeds.push(std::fs::read(keys_dir().join(f)).unwrap());
+    }
+    der_seeds.push(pem::encode(&pem::Pem::new("PUBLIC KEY", std::fs::read(keys_dir().join("ec.spki.der")).unwrap())).into_bytes());
+    let n = if cfg.thorough { 12_000 } else { 700 };
+    for i in 0..n {
+        let input = match i % 5 {
+            0 => {
+                let k = r.below(64);
+                r.bytes(k)
+            }
+            1 => spell(&gen_value(&mut r, 3, 100), &mut r).into_bytes(),
+            _ => {
+                let s = r.pick(&seeds).clone();
+                mutate(&mut r, &s)
+            }
+        };
+        feed_all_parsers(&mut sink, &input);
+        let d = if i % 3 == 0 { let k = r.below(80); r.bytes(k) } else { let s = r.pick(&der_seeds).clone(); mutate(&mut r, &s) };
+        feed_key_importers(&mut sink, &d);
+    }
+    // deep nesting up to and beyond serde_json's recursion limit
+    for depth in [10usize, 100, 127, 128, 129, 1000, 100_000] {
+        let open: String = "[".repeat(depth);
+        feed_all_parsers(&mut sink, open.as_bytes());
+        let obj: String = "{\"a\":".repeat(depth);
+        feed_all_parsers(&mut sink, obj.as_bytes());
+        let closed = format!("{}{}", "[".repeat(depth), "]".repeat(depth));
+        feed_all_parsers(&mut sink, closed.as_bytes());
+    }
+    // extreme numbers in otherwise valid documents
+    for num in ["18446744073709551615", "18446744073709551616", "-9223372036854775809", "1e400", "-0", "4294967296", "1.5"] {
+        let doc = format!("{{\"_type\":\"layout\",\"expires\":\"2030-01-01T00:00:00Z\",\"readme\":\"\",\"keys\":{{}},\"inspect\":[],\"steps\":[{{\"_type\":\"step\",\"threshold\":{},\"name\":\"s\",\"expected_materials\":[],\"expected_products\":[],\"pubkeys\":[],\"expected_command\":[]}}]}}", num);
+        feed_all_parsers(&mut sink, doc.as_bytes());
+    }
+    // ---- hostile link directories
+    let nd = if cfg.thorough { 1500 } else { 120 };
+    for _ in 0..nd {
+        hostile_dir_case(&mut sink, &mut r, &pool);
     }
     sink.finish(&cfg.out, serde_json::json!({}));
 }
